@@ -18,7 +18,7 @@ SimNext ==
     \/ /\ pending = "http" /\ pending' = "none" /\ \E s \in Svcs, a \in Addrs, eph \in BOOLEAN, en \in BOOLEAN : RegisterHttp(s, a, eph, en, 1)
     \/ /\ pending = "grpc" /\ pending' = "none" /\ \E s \in Svcs, a \in Addrs, c \in Conns, eph \in BOOLEAN : RegisterGrpc(s, a, c, eph)
     \/ /\ pending = "weight" /\ pending' = "none" /\ \E s \in Svcs, a \in Addrs : UpdateWeight(s, a, 2)
-    \/ /\ pending = "beat" /\ pending' = "none" /\ \E s \in Svcs, a \in Addrs : Beat(s, a)
+    \/ /\ pending = "beat" /\ pending' = "none" /\ \E s \in Svcs, a \in Addrs, eph \in BOOLEAN : Beat(s, a, eph)
     \/ /\ pending = "sync" /\ pending' = "none" /\ \E s \in Svcs, a \in Addrs, n \in Nodes, g \in BOOLEAN, h \in BOOLEAN : SyncUpdate(s, a, n, g, h)
     \/ /\ pending = "dereg" /\ pending' = "none" /\ \E s \in Svcs, a \in Addrs, c \in Clients \cup {""} : Deregister(s, a, c)
     \/ /\ pending = "disc" /\ pending' = "none" /\ \E c \in Clients : Disconnect(c)
